@@ -219,6 +219,11 @@ func GenSession(r *rand.Rand, tier string) (Session, int) {
 		}
 		body := strings.TrimLeft(randStr(r, bodyAlpha, cl-1), " ")
 		txt := body + string(termChars[terms[i%len(terms)]])
+		if r.Intn(4) == 0 {
+			// a run of identical final characters ("vlan 100"): still not a subsequence of any proper
+			// prefix of its echo, because the character occurs nowhere else
+			txt += strings.Repeat(string(termChars[terms[i%len(terms)]]), 1+r.Intn(2))
+		}
 		if len(txt) > maxCmd {
 			maxCmd = len(txt)
 		}
@@ -569,7 +574,7 @@ func init() {
 		Assumptions: []string{
 			"device echoes input and answers output+prompt (causal devsim.CLI model)",
 			"no proper prefix of newline+output+prompt has a last line accepted by the prompt pattern (checked by brute force per generated output; rejected candidates resampled)",
-			"every command ends in a byte that occurs nowhere else in stale bytes, wrap bytes or the command",
+			"every command ends in a byte (or a run of 1-3 copies of it) that occurs nowhere else in stale bytes, wrap bytes or the command, so the command is never a subsequence of stale bytes + a proper prefix of its echo",
 			"read boundaries never fall inside an escape sequence; escape sequences from a fixed family of SGR/erase/cursor codes; no BEL in text",
 			"prompt search depth > longest normalised output line + prompt; prompt + (wrapped) echo fits max(depth, 2*len(command))",
 			"reference normaliser works on the device's token list (trusted base: devsim.RenderRef, ~20 lines)",
